@@ -150,13 +150,13 @@ def _core():
     axiom(T, "empty-dict-dictlike", is_dictlike(EMPTY_DICT))
     axiom(T, "values-len", FA(s, len_(dict_values(s)) == len_(s), [dict_values(s)]))
     axiom(T, "values-nth", FA([s, i], z3.Implies(z3.And(0 <= i, i < len_(s)), nth(dict_values(s), i) == get(s, nth(s, i))),
-                               [nth(dict_values(s), i)]))
+                               [nth(dict_values(s), i), (dict_values(s), nth(s, i))]))
     axiom(T, "items-len", FA(s, len_(dict_items(s)) == len_(s), [dict_items(s)]))
     axiom(T, "items-nth", FA([s, i], z3.Implies(z3.And(0 <= i, i < len_(s)),
                                                  z3.And(len_(nth(dict_items(s), i)) == 2,
                                                         nth(nth(dict_items(s), i), 0) == nth(s, i),
                                                         nth(nth(dict_items(s), i), 1) == get(s, nth(s, i)))),
-                              [nth(dict_items(s), i)]))
+                              [nth(dict_items(s), i), (dict_items(s), nth(s, i))]))
     # sets
     axiom(T, "empty-set", z3.And(len_(EMPTY_SET) == 0, is_dictlike(EMPTY_SET)))
     axiom(T, "set-add-has", FA([s, k, x], has(set_add(s, k), x) == z3.Or(x == k, has(s, x)), [has(set_add(s, k), x)]))
